@@ -10,9 +10,9 @@ arm), whose binding order is read from the pattern text.
 """
 import re
 
-from .cells import EVAL, arg_order
+from .cells import BINARY, EVAL, UNARY
 from .common import EncodingError
-from .extract import eval_arms
+from .extract import arm_application, eval_arms
 from .kani import Harness
 from .props import c05
 
@@ -64,9 +64,10 @@ def gen(run, tier, seed=0, results_only=False):
     arms = eval_arms(run.read(EVAL))
     fields = enum_fields(run)
     fns, hs = [], []
-    strict = [(v, a) for v, a in arms.items() if a["strict"] >= 1 and not a["lazy"] and a["fn"] and not a["fn"].startswith("context.")]
+    strict = [(v, arms[v]) for v in UNARY + BINARY + ["Index"] if v in arms]
     idx = 0
     for variant, a in strict:
+        app = arm_application(a)
         ft = fields.get(variant)
         if ft is None or len(ft) != len(a["binds"]):
             raise EncodingError(f"pattern of the {variant} arm does not match the enum's fields")
@@ -75,9 +76,8 @@ def gen(run, tier, seed=0, results_only=False):
         fns.append(f"    async fn arm_{variant}({params}, context: &mut EvalContext<'_>) -> Result<Value> {{\n        {rhs}\n    }}")
         exprs = [i for i, t in enumerate(ft) if t == "expr"]
         n = len(exprs)
-        if n != a["strict"]:
-            raise EncodingError(f"the {variant} arm evaluates {a['strict']} sub-expressions but the node has {n}")
-        order = arg_order(a, n) if n == len(a["binds"]) else list(range(n))
+        if n != len(app["evaluated"]):
+            raise EncodingError(f"the {variant} arm evaluates {len(app['evaluated'])} sub-expressions but the node has {n}")
         # arguments of the slice: expression fields are oracle leaves 0..n-1 in FIELD order
         argv, pre = [], []
         k = 0
@@ -87,21 +87,30 @@ def gen(run, tier, seed=0, results_only=False):
                 argv.append(f"&fld{k}")
                 k += 1
             elif t == "index":
-                pre.append("let idxv = Index::Vec(0);")
+                pre.append(f"let idxv = Index::Vec(0); let {b} = &idxv;")
                 argv.append("&idxv")
             else:
                 raise EncodingError(f"strict arm {variant} with a field of kind {t}")
-        extra_args = ", &idxv" if "index" in ft else ""
-        call_f = f"{a['fn']}(" + ", ".join(f"plan_val({order[i]})" for i in range(n)) + extra_args + ")"
+        call_f = "(" + app["template"].format(*[f"plan_val({i})" for i in range(n)]) + ")"
         operand_kind = 1
+        # the operator function is replaced by a recorder when the arm applies it in the plain form f(v0[, v1]) (or index(v0, idx));
+        # otherwise the real function runs and the result is compared with a direct application to the same values
+        recordable = app["fn"] and (app["plain"] or ("index" in ft and re.fullmatch(r"\s*\w+\(\{0\},\s*\w+\)\s*", app["template"])))
         rec = "rec_index" if "index" in ft else ("rec_op1" if n == 1 else "rec_op2")
-        # under Kani: the function is called exactly once, with the sub-results in the arm's argument order, and its result is returned
-        got = " && ".join(f"op_got({j}, 1, pi{order[j]})" for j in range(n))
-        kres = f"assert!(unsafe {{ OPN }} == 1 && {got}); assert!(out_is_ret(&out));"
+        # positions: which sub-result is the k-th argument of f
+        argpos = [int(x) for x in re.findall(r"\{(\d)\}", app["template"])]
         nres = f"let exp = {call_f}; show(\"expected\", &exp); assert!(same_res(&out, &exp)); std::mem::forget(exp);"
+        if "index" in ft:
+            ib = a["binds"][ft.index("index")]
+            nres = f"let {ib} = &idxv; " + nres
+        if recordable:
+            got = " && ".join(f"op_got({j}, 1, pi{argpos[j]})" for j in range(n))
+            kres = f"assert!(unsafe {{ OPN }} == 1 && {got}); assert!(out_is_ret(&out));"
+        else:
+            kres = nres
         cases = [("vals", tuple([operand_kind] * n), "log_is(&[" + ", ".join(str(i) for i in range(n)) + "])", kres, nres)]
         if not results_only:
-            fail = "assert!(unsafe { OPN } == 0); assert!(matches!(&out, Err(Error::DivisionByZero)));"
+            fail = ("assert!(unsafe { OPN } == 0); " if recordable else "") + "assert!(matches!(&out, Err(Error::DivisionByZero)));"
             nfail = "assert!(matches!(&out, Err(_)));"
             cases.append(("first_fails", tuple([3] + [operand_kind] * (n - 1)), "log_is(&[0])", fail, nfail))
             if n == 2:
@@ -126,7 +135,8 @@ def gen(run, tier, seed=0, results_only=False):
         {exp_res}
         std::mem::forget(out); std::mem::forget(rs); std::mem::forget(cache);"""
             native = native_body(variant, n, kinds, exp_log, nat_res, "index" in ft, small)
-            h = Harness(f"arm_{variant}_{cname}", body, unwind=1, stubs=[("Expr::eval_rec", "oracle_eval_rec"), (a["fn"], rec)], heavy=True,
+            h = Harness(f"arm_{variant}_{cname}", body, unwind=1,
+                        stubs=[("Expr::eval_rec", "oracle_eval_rec")] + ([(app["fn"], rec)] if recordable else []), heavy=True,
                         mandatory=True, native_body=native, abstract=True,
                         meta={"node": variant, "arm": rhs[:160], "case": cname,
                               "asserted": "sub-expressions evaluated once each in field order; first error ends evaluation; result = the arm's function on the sub-results"})
